@@ -225,7 +225,9 @@ def stepTok (prov : List (List Char × List UInt8)) (st : St) (tok : String) (ob
           let (s', l) := iter s disk
           withKeys { st with store := some s' } ("t" ++ iterTok l)
         | ["K"] => withKeys st (toString s.items.length ++ "." ++ (if isEmpty s then "1" else "0"))
-        | ["S"] =>
+        | [stok] =>
+          if !(stok == "S" || stok == "SA" || stok == "SE") then push st "bad-token" else
+          let variant : Char := if stok == "SA" then 'A' else if stok == "SE" then 'E' else 'S'
           let empty : Store := ⟨(if st.kind == .data then .image else .data), []⟩
           let (stores, outcome) :=
             if st.kind == .data then saveStores s empty disk disk else saveStores empty s disk disk
@@ -236,12 +238,12 @@ def stepTok (prov : List (List Char × List UInt8)) (st : St) (tok : String) (ob
           let st := { st with store := some s2 }
           (match outcome with
            | .refused _ =>
-             withKeys { st with frozen := true, tags := "save-refused" :: st.tags }
-               ("e|" ++ treeTok Spec.sentinelTree ++ "|" ++ iterTok l)
+             withKeys { st with frozen := true, tags := "save-refused" :: ("target-" ++ stok) :: st.tags }
+               ("e|" ++ treeTok (Spec.sentinelTreeOf variant) ++ "|" ++ iterTok l)
            | .panic => withKeys { st with tags := "save-panic" :: st.tags } ("p|?|" ++ iterTok l)
            | .effects ws =>
              if (keys s2).all isPlain then
-               withKeys { st with tags := "save-plain" :: st.tags }
+               withKeys { st with tags := "save-plain" :: ("target-" ++ stok) :: st.tags }
                  ("k|" ++ treeTok (plainTree st.kind ws) ++ "|" ++ iterTok l)
              else
                withKeys { st with tags := "save-nonplain" :: st.tags } ("*|*|" ++ iterTok l))
@@ -269,13 +271,15 @@ def stepTok (prov : List (List Char × List UInt8)) (st : St) (tok : String) (ob
             | some key => specBytes st.kind v ++ specProvenance prov key v
             | none => [])
           | _ => [] }
-    | ["S"], some _ =>
+    | [stok], some _ =>
+      if !(stok == "S" || stok == "SA" || stok == "SE") then st' else
+      let variant : Char := if stok == "SA" then 'A' else if stok == "SE" then 'E' else 'S'
       match implRes.splitOn "|" with
       | [r, tree, it] =>
         match (csv tree).mapM parseNode, (csv it).mapM parseEntry with
         | some nodes, some es =>
           let rc := (r.toList.headD '?')
-          { st' with spec := st'.spec ++ Spec.saveFailures (dirName st.kind) es rc nodes ++
+          { st' with spec := st'.spec ++ Spec.saveFailures variant (dirName st.kind) es rc nodes ++
               es.flatMap fun (e : Spec.Entry) => match e.2 with
                 | some b => specBytes st.kind ("o" ++ hexOfBytes b) ++ specProvenance prov e.1 ("o" ++ hexOfBytes b)
                 | none => [] }
@@ -313,7 +317,7 @@ def run (inp obs : List String) : Verdict :=
     let st := (toks.zip obs).foldl (fun st p => stepTok prov st p.1 p.2) ({ kind := kind } : St)
     let model := st.out.reverse
     let agree := (model.zip obs).all fun p => tokAgree p.1 p.2
-    let nt := toks.any fun t => t.startsWith "I:" || t.startsWith "G:" || t = "T" || t = "S"
+    let nt := toks.any fun t => t.startsWith "I:" || t.startsWith "G:" || t = "T" || t = "S" || t = "SA" || t = "SE"
     let tags := (st.tags ++ [if kind == .data then "data" else "image",
                              "len" ++ toString (min (toks.length / 5 * 5) 30)] ++ (if nt then ["nt"] else [])).eraseDups
     { agree := agree, spec := st.spec.eraseDups, tags := tags, model := " ".intercalate model }
